@@ -198,7 +198,7 @@ def _value(e, name, n, alphabet='ab /'):
 
 def h_files(e, tid, nreq, idlen, titlelen, reserved=False):
     spec = TEMPLATES[tid]
-    res = ['index.html'] if reserved else []
+    res = (['index.html'] if reserved is True else list(reserved)) if reserved else []
     inv = {n: None for n in res}
     fn = Filenames(spec, charsub=[BAD, '-'], extension='.html', invalid=inv)
     ref = RefGen(e, spec, '.html', res)
@@ -259,4 +259,8 @@ def jobs(tier, seed):
             for idlen, titlelen, n in cfgs:
                 J.append(dict(harness='h_files', params=dict(tid=tid, nreq=n, idlen=idlen, titlelen=titlelen, reserved=reserved),
                               label='%s n=%d id%d title%d%s' % (tid, n, idlen, titlelen, ' reserved' if reserved else ''), split=6))
+    # a numbered candidate that is reserved: $num must advance past it
+    J.append(dict(harness='h_files', params=dict(tid='T2', nreq=3, idlen=1, titlelen=1, reserved=['sect2.html']), label='T2 reserved sect2', split=6))
+    J.append(dict(harness='h_files', params=dict(tid='T1', nreq=3, idlen=1, titlelen=1, reserved=['sect001.html', 'index.html']), label='T1 reserved sect001', split=6))
+    J.append(dict(harness='h_files', params=dict(tid='T6', nreq=3 if q else 4, idlen=1, titlelen=1, reserved=['f2.html', 'toc.html']), label='T6 reserved f2/toc', split=6))
     return J
